@@ -74,6 +74,7 @@ func (s *Store) AddMessage(message storage.Message) (id string, err error) {
 		date:    message.Date(),
 		subject: message.Subject(),
 	}
+	var evicted []*Message
 	s.withMailbox(message.Mailbox(), true, func(mb *mbox) {
 		// Generate message ID.
 		mb.last++
@@ -86,13 +87,27 @@ func (s *Store) AddMessage(message storage.Message) (id string, err error) {
 		if s.cap > 0 {
 			// Enforce cap.
 			for len(mb.messages) > s.cap {
-				delete(mb.messages, strconv.Itoa(mb.first))
+				key := strconv.Itoa(mb.first)
+				if old, ok := mb.messages[key]; ok {
+					delete(mb.messages, key)
+					evicted = append(evicted, old)
+				}
 				mb.first++
 			}
 		}
 	})
+	// Messages evicted by the cap leave the store like any other removed message.
+	for _, old := range evicted {
+		s.emitDeleted(old)
+		s.enforcerRemove(old)
+	}
 	s.enforcerDeliver(m)
 	return id, err
+}
+
+// emitDeleted announces that m has left the store.
+func (s *Store) emitDeleted(m *Message) {
+	s.extHost.Events.AfterMessageDeleted.Emit(message.MakeMetadata(m))
 }
 
 // GetMessage gets a mesage.
